@@ -26,6 +26,7 @@ type C04Query struct {
 	UntilZero bool  `json:"until_zero,omitempty"` // until = 0 (the epoch), not "now"
 	TickAt    int   `json:"tick_at,omitempty"`    // implicit now: the clock advances by TickD s at this statement of the call
 	TickD     int64 `json:"tick_d,omitempty"`
+	NowSkew   int64 `json:"now_skew,omitempty"` // explicit now: the clock value passed differs from the process clock by this much
 }
 
 type C04Case struct {
@@ -125,6 +126,11 @@ func (c04Sim) Gen(prop, tier string, r *rand.Rand) interface{} {
 				q.TickD = between(r, 1, 3)
 			}
 		}
+		if !q.Implicit && chance(r, 0.08) {
+			// the caller's clock value is not the process clock (another host's
+			// clock, a replayed instant)
+			q.NowSkew = pick(r, int64(1), 2, 60, l.Archs[0].S, l.MaxRet(), -1, -l.Archs[0].S)
+		}
 		if chance(r, 0.04) {
 			q.UntilZero = true
 			if chance(r, 0.5) {
@@ -207,6 +213,10 @@ func (c04Sim) Run(e *Env, ci interface{}) {
 		var want model.ShapeResult
 		for fi, db := range dbs {
 			now = Now()
+			if !q.Implicit && q.NowSkew != 0 && now+q.NowSkew > 946684800 && now+q.NowSkew < math.MaxUint32-400*86400 {
+				now += q.NowSkew // the explicit clock value of this query
+				e.Probe("explicit-now-differs-from-the-process-clock")
+			}
 			oracle := "C04.shape"
 			if now > math.MaxInt32 {
 				oracle = "C04.shape-after-2038"
@@ -256,6 +266,9 @@ func (c04Sim) Run(e *Env, ci interface{}) {
 			// the instant the call may have sampled: the start clock, or any second
 			// up to the clock after the call when the clock ticked inside it
 			now2 := Now()
+			if !(q.Implicit && q.ID == -1) {
+				now2 = now // an explicit clock value: the only instant the call may answer for
+			}
 			if now2 > now {
 				desc += fmt.Sprintf(", the clock ticked %d s inside the call", now2-now)
 			}
